@@ -165,11 +165,65 @@ let run_prog refine rest =
          | RSusp _ -> Printf.printf "%s susp\n" tag
          | RFuel _ -> Printf.printf "%s MODEL_OUT_OF_FUEL\n" tag)
 
+(* aric <implementation line of harness/c01arith.c>: replay the logged decisions through the DArith model and print
+   the statistics-bin offsets the model forms, MCU by MCU ("ari K=.. | D0 D1 .. A0 F0 ..") *)
+let run_aric rest =
+  match String.split_on_char '|' rest with
+  | [hd; body] ->
+      let hd = String.trim hd in
+      let ks = List.map int_of_string (String.split_on_char ',' (String.sub hd 2 (String.length hd - 2))) in
+      let toks = List.filter (fun x -> x <> "") (String.split_on_char ' ' (String.trim body)) in
+      let parsed = Array.of_list (List.map (fun t ->
+        let i = String.index t ':' in
+        (t.[0], int_of_string (String.sub t 1 (i - 1)), t.[i + 1] = '1')) toks) in
+      let nbits = Array.length parsed in
+      let d n = let i = int_of_nat n in i < nbits && (let (_, _, b) = parsed.(i) in b) in
+      let out = Buffer.create 1024 in
+      let emit_dc tr = List.iter (fun (i, b) -> if int_of_z b = 64 then Buffer.add_string out (Printf.sprintf " D%d" (int_of_z i))) (List.rev tr) in
+      let emit_ac tr = List.iter (fun (i, b) -> match int_of_z b with
+        | 256 -> Buffer.add_string out (Printf.sprintf " A%d" (int_of_z i))
+        | 4 -> Buffer.add_string out (Printf.sprintf " F%d" (int_of_z i))
+        | _ -> ()) (List.rev tr) in
+      let rec blocks ks n =
+        match ks with
+        | [] -> ()
+        | k :: rest ->
+            let pos = int_of_nat n in
+            if pos >= nbits then () else
+            let (kind, off, _) = parsed.(pos) in
+            if kind <> 'D' then Buffer.add_string out " MODEL-EXPECTED-DC" else
+            (match dc_decode d n (z_of_int off) false false [] with
+             | DErr (_, tr) -> emit_dc tr
+             | DFuel tr -> emit_dc tr; Buffer.add_string out " MODEL_OUT_OF_FUEL"
+             | DOk (n1, _, tr) ->
+                 emit_dc tr;
+                 (match ac_decode (nat_of_int 64) d (fun kk -> int_of_z kk <= k) n1 (z_of_int 1) [] with
+                  | DErr (_, tr2) -> emit_ac tr2
+                  | DFuel tr2 -> emit_ac tr2; Buffer.add_string out " MODEL_OUT_OF_FUEL"
+                  | DOk (n2, _, tr2) -> emit_ac tr2; blocks rest n2)) in
+      blocks ks O;
+      Printf.printf "ari %s |%s\n" hd (Buffer.contents out)
+  | _ -> print_endline "ari ?"
+
+(* coefc <header of a harness/c01coef.c line>: block positions of one MCU from model/DCoefPos.v *)
+let run_coefc rest =
+  let hd = String.trim (List.hd (String.split_on_char '|' rest)) in
+  let kv = List.map (fun t -> match String.split_on_char '=' t with [a; b] -> (a, b) | _ -> (t, "")) (words hd) in
+  let geti k = int_of_string (List.assoc k kv) in
+  let comps = List.map (fun c -> match List.map int_of_string (String.split_on_char ':' c) with
+                | ci :: h :: v :: _ -> ((z_of_int ci, z_of_int h), z_of_int v) | _ -> ((Z0, Z0), Z0))
+                (String.split_on_char ',' (List.assoc "comps" kv)) in
+  let pos = mcu_positions (geti "il" = 1) (z_of_int (geti "r")) (z_of_int (geti "yo")) (z_of_int (geti "m")) comps in
+  Printf.printf "coef %s |%s\n" hd
+    (String.concat "" (List.map (fun ((ci, row), col) -> Printf.sprintf " %d:%d:%d" (int_of_z ci) (int_of_z row) (int_of_z col)) pos))
+
 let () = iter_lines (fun line ->
   let line = String.trim line in
   if String.length line >= 4 && String.sub line 0 4 = "hdr " then run_hdr (String.trim (String.sub line 4 (String.length line - 4)))
   else if line = "hdr" then run_hdr ""
   else if String.length line >= 4 && String.sub line 0 4 = "blk " then run_blk (String.sub line 4 (String.length line - 4))
+  else if String.length line >= 6 && String.sub line 0 6 = "coefc " then run_coefc (String.sub line 6 (String.length line - 6))
+  else if String.length line >= 5 && String.sub line 0 5 = "aric " then run_aric (String.sub line 5 (String.length line - 5))
   else if String.length line >= 7 && String.sub line 0 7 = "pfirst " then run_prog false (String.sub line 7 (String.length line - 7))
   else if String.length line >= 8 && String.sub line 0 8 = "prefine " then run_prog true (String.sub line 8 (String.length line - 8))
   else if String.length line >= 5 && String.sub line 0 5 = "fblk " then run_fblk (String.sub line 5 (String.length line - 5))
